@@ -64,6 +64,8 @@ FLAVOURS["cooperating"] = '''Flavour for this property: change A consists of TWO
 
 FLAVOURS["stdlib"] = '''Flavour for this property: a LIBRARY CALL swapped for a NEAR-EQUIVALENT. Each change replaces (or introduces) a call into the Go standard library or into github.com/pkg/errors by another one that a maintainer would consider equivalent or better, and that IS equivalent except in a corner which breaks the property: io.ReadFull versus Read / io.ReadAtLeast / bufio Peek+Discard; rand.Read versus io.ReadFull(rand.Reader) versus rand.Int versus math/rand; big.Int.Bytes versus FillBytes versus Text/SetString; bytes.Equal versus hmac.Equal versus subtle.ConstantTimeCompare versus bytes.Compare versus bytes.HasPrefix; append versus copy versus bytes.Buffer versus bytes.Clone / slices.Clone / slices.Grow / slices.Concat; sort.Slice versus sort.SliceStable versus slices.Sort versus a map range; binary.BigEndian.PutUintN / UintN versus binary.Write / binary.Read versus AppendUintN versus LittleEndian or a different width; hash.Hash.Sum(nil) versus Sum(buf) versus sha256.Sum256; hmac.New kept and Reset versus created anew; strings / bytes conversion helpers (TrimRight, Trim, Fields, ToLower, EqualFold, utf8 handling) applied to octet strings; errors.Wrap / Wrapf / WithMessage / fmt.Errorf / errors.Join on a possibly nil error; strconv / fmt formatting used to build a registry key; copy-on-assign of arrays versus slices; min / max / clear builtins. The diff should look like a modernisation or simplification commit (2-25 changed lines); say in NOTES.md exactly which documented difference between the two calls is responsible.'''
 
+FLAVOURS["regress"] = '''Flavour for this property: a REGRESSION OF SOMETHING THAT WAS FIXED BEFORE, or its ANALOGUE IN A SIBLING. Run `git log --oneline -25` and `git show <commit>` for the commits whose message starts with "fix:" - each repaired a defect of this library (an index or slice past the end, 8- or 16-bit wrap-around in a length check, a mask one bit too narrow, a value never stored, reserved bits not ignored, attributes not consumed, padding kept, a stride that disagrees with the encoder, a truncated message accepted). Change A must bring one of these defects back IN PART - for a narrower set of inputs than the original defect, through a different expression than the one the fix touched (for instance by changing the type of a variable the fixed check relies on, by moving the check behind an early exit, by recomputing the checked quantity slightly differently afterwards, by "simplifying" two checks into one that is weaker for one combination), so that the tests added with the fix (if any) and the rest of the suite still pass. Change B must introduce the ANALOGOUS defect in a sibling that was never affected (another payload type, the encoder instead of the decoder, the Child SA path instead of the IKE SA path, the responder arm instead of the initiator arm, another EAP-AKA' attribute), again only for a narrow input class. If no fix commit is related to this property at all, derive both changes from the fix that is closest in kind. 2-30 changed lines each; NOTES.md must name the fix commit the change is derived from.'''
+
 NEUTRAL_SMALL = '''You are helping to evaluate a verification effort by playing the role of a careful maintainer who REFACTORS code without changing behaviour. ''' + HEAD + '''
 Your task: produce FOUR independent, realistic, BEHAVIOUR-PRESERVING changes (call them a, b, c, d) to the library's non-test source inside the code this property is anchored in. Each change on its own must
   1. leave the property above TRUE for every input / configuration / history in its quantifier (be strict about this: no change of any observable result, error/no-error outcome, or state for in-domain inputs; and no new crash on out-of-domain input either),
